@@ -30,6 +30,7 @@ type edge struct {
 }
 
 type deferRec struct {
+	blk   *ssa.BasicBlock
 	guard string
 	call  *ssa.CallCommon
 	instr *ssa.Defer
@@ -719,6 +720,9 @@ func (f *Frame) numberPoints() {
 			case *ssa.Defer:
 				calls = append(calls, pc{in, shortName(f.calleeKey(&x.Call)), in.Pos(), k})
 			case *ssa.Return:
+				if f.fn.Recover != nil && b == f.fn.Recover {
+					continue
+				}
 				rets = append(rets, pc{in, "", in.Pos(), k})
 			case *ssa.Send:
 				calls = append(calls, pc{in, "send", in.Pos(), k})
